@@ -190,6 +190,11 @@ def build(kind, target, tkind, d, rng, T, bounded, seed, shared=None):
         if bounded:
             pos = inputs["lower"] + (inputs["upper"] - inputs["lower"]) * rng.uniform(0.05, 0.95, size=(nw, d))
         inputs["positions"] = pos
+        if not bounded and rng.random() < 0.25:
+            # integer-typed starting values (start=[1, 0, 2] is what a user types): same numbers, must behave as floats
+            inputs["start"] = (np.rint(inputs["start"] * 4) + (1 if tkind == "gamma" else 0)).astype(np.int64)
+            pi = np.rint(pos * 6) + (np.arange(nw)[:, None] == np.arange(d)[None, :] + 1)   # keeps the walkers affinely independent
+            inputs["positions"] = (np.abs(pi) + 1 if tkind == "gamma" else pi).astype(np.int64)
     from inference.mcmc import GibbsChain, PcaChain, HamiltonianChain, EnsembleSampler
     from inference.mcmc.gibbs import MetropolisChain
 
@@ -230,9 +235,11 @@ def run_job(job, rec):
         if isinstance(built, Raised):
             rec.violation("raised", f"{kind} construction raised {built!r}", ctx)
             continue
-        ch, _ = built
+        ch, b_inputs = built
         prog = random_program(rng, kind)
         rec.count("programs")
+        if np.asarray(b_inputs["start"]).dtype.kind == "i":
+            rec.count("cases:integer_typed_start")
         if T != 1.0:
             rec.count("cases:tempered")
         if bounded:
